@@ -101,15 +101,16 @@ func c19(r *core.Run) {
 		}
 		st := gs.Underlying().(*types.Struct)
 		assigned, read := map[string]bool{}, map[string]bool{}
-		for _, fn := range p.Summary(expFn).Funcs {
-			allInstrs(fn, func(in ssa.Instruction) {
-				if s, ok := in.(*ssa.Store); ok {
-					if fa, ok := s.Addr.(*ssa.FieldAddr); ok && core.TypeName(fa.X.Type()) == "x/"+m+"/types.GenesisState" {
+		// only assignments made by ExportGenesis itself from keeper reads count (DefaultGenesis fills constants)
+		allInstrs(expFn, func(in ssa.Instruction) {
+			if s, ok := in.(*ssa.Store); ok {
+				if fa, ok := s.Addr.(*ssa.FieldAddr); ok && core.TypeName(fa.X.Type()) == "x/"+m+"/types.GenesisState" {
+					if _, isCall := s.Val.(*ssa.Call); isCall {
 						assigned[core.FieldName(fa.X.Type(), fa.Field)] = true
 					}
 				}
-			})
-		}
+			}
+		})
 		allInstrs(initFn, func(in ssa.Instruction) {
 			switch x := in.(type) {
 			case *ssa.FieldAddr:
